@@ -104,16 +104,18 @@ impl MemTable {
 		}
 	}
 
-	/// True if `batch` cannot fit even into an empty memtable with
-	/// `arena_capacity` bytes, whatever tower heights its nodes get. Applying
-	/// such a batch can only fail half-way, so it must be refused before it is
-	/// logged.
+	/// True if `batch` is not certain to fit into an empty memtable with
+	/// `arena_capacity` bytes. The tower height of every node is drawn at
+	/// random when it is inserted, so only the worst case is known in advance:
+	/// a batch between the best and the worst case would be logged and could
+	/// then fail half-way through its memtable apply, again and again. Such a
+	/// batch must be refused before it is logged.
 	pub(crate) fn can_never_fit(batch: &Batch, arena_capacity: usize) -> bool {
 		let needed: usize = batch
 			.entries
 			.iter()
 			.map(|e| {
-				skiplist::min_entry_size(e.key.len(), e.value.as_ref().map_or(0, |v| v.len()))
+				skiplist::max_entry_size(e.key.len(), e.value.as_ref().map_or(0, |v| v.len()))
 			})
 			.sum();
 		needed + skiplist::SENTINEL_SIZE > arena_capacity
